@@ -9,7 +9,8 @@ EvSCfg == IsEvent("SCfg")
 EvAcct == IsEvent("Acct") /\ BookkeepingOk(Rec[l])
 EvARun == IsEvent("ARun") /\ NoOverflow(Rec[l])
 EvSummary == IsEvent("AllocSummary") /\ ProtocolOk(Rec[l])
-TraceNext == EvReset \/ EvSCfg \/ EvAcct \/ EvARun \/ EvSummary
+EvResume == IsEvent("Resume") /\ LiveValuesOk(Rec[l])
+TraceNext == EvReset \/ EvSCfg \/ EvAcct \/ EvARun \/ EvSummary \/ EvResume
 TraceSpec == TraceInit /\ [][TraceNext]_l
 TraceAccepted ==
     LET d == TLCGet("stats").diameter IN
